@@ -313,9 +313,27 @@ func (kitVP9) genOf(c interface{}) int {
 
 type kitAV1 struct{}
 
+// sequence headers (from mediacommon's test vectors) in low-overhead format with the size field, so that
+// what the fMP4 sample carries is byte-identical to what was written
 var av1SeqGen = map[int][]byte{
-	1: {8, 0, 0, 0, 66, 167, 191, 228, 96, 13, 0, 64},
-	2: {0x8, 0x0, 0x0, 0x0, 0x42, 0xab, 0xbf, 0xc3, 0x71, 0xab, 0xe6, 0x1},
+	1: av1Sized(1, []byte{0, 0, 0, 66, 167, 191, 228, 96, 13, 0, 64}),
+	2: av1Sized(1, []byte{0x0, 0x0, 0x0, 0x42, 0xab, 0xbf, 0xc3, 0x71, 0xab, 0xe6, 0x1}),
+}
+
+func av1Sized(typ byte, payload []byte) []byte {
+	out := []byte{typ<<3 | 0x02}
+	n := len(payload)
+	for {
+		b := byte(n & 0x7f)
+		n >>= 7
+		if n > 0 {
+			out = append(out, b|0x80)
+		} else {
+			out = append(out, b)
+			break
+		}
+	}
+	return append(out, payload...)
 }
 
 func (kitAV1) kind() string { return "v" }
@@ -332,7 +350,7 @@ func (kitAV1) build(track, id int, ra bool, ps int, size int, _ int) [][]byte {
 		}
 		tu = append(tu, av1SeqGen[ps])
 	}
-	tu = append(tu, append([]byte{0x30}, idBytes(track, id, size)...)) // OBU_FRAME without size field
+	tu = append(tu, av1Sized(6, idBytes(track, id, size))) // OBU_FRAME
 	return tu
 }
 
@@ -351,8 +369,12 @@ func (kitAV1) fromFMP4(s *fmp4.PartSample) ([][]byte, error) { return s.GetAV1()
 func (kitAV1) unitDur(int) int64                             { return 0 }
 func (kitAV1) ident(au [][]byte) (int, int, bool) {
 	for _, obu := range au {
-		if len(obu) > 1 && (obu[0]>>3)&0xf == 6 {
-			return parseID(obu[1:])
+		if len(obu) > 2 && (obu[0]>>3)&0xf == 6 {
+			i := 1
+			for i < len(obu) && obu[i]&0x80 != 0 {
+				i++
+			}
+			return parseID(obu[i+1:])
 		}
 	}
 	return 0, 0, false
